@@ -231,6 +231,13 @@ class World:
                 f["apprs"] = rng.choice([["X"], ["ab"], ["carol", "CAROL"]])
             elif m == 8:
                 f["p"] = rng.randint(0, 19); f["inc"] = 10 ** rng.randint(0, 19) * rng.choice([1, 2, 5])
+            elif m == 9 and rng.random() < 0.5:
+                # increments at and beyond what a 96-bit decimal holds, multiples of 10^precision or just off
+                pp = rng.choice([p, 1, 2, 18])
+                f["p"] = pp
+                f["inc"] = rng.choice([2 ** 96, 2 ** 96 + 10 ** pp // 2, 2 ** 100, 2 ** 127 + 1, 2 ** 128 - 1,
+                                       10 ** pp * (2 ** 96 // 10 ** pp + 1), 10 ** pp * (2 ** 96 // 10 ** pp) + 1,
+                                       2 ** 64, 2 ** 64 + 1, 10 ** 28 + 10 ** pp // 10 if pp else 10 ** 28 + 1])
             else:
                 f["inc"] = 10 ** p * rng.choice([1, 7]) + rng.choice([0, 1])
             self.send(inst_line(f))
@@ -269,6 +276,16 @@ class World:
                 if f > 0 or rng.random() < 0.2:
                     fee = (f, quote)
         due = total + (fee[0] if fee else 0)
+        if rng.random() < 0.02:
+            # sizes / totals at the 96-bit capacity of the decimal type, consistent with each other if the
+            # conversion saturates instead of failing (price 1 or below)
+            cap = 2 ** 96
+            size = rng.choice([cap, cap + c.increment, cap - (cap % c.increment) + c.increment, cap - 1, 10 * 2 ** 120])
+            total = rng.choice([cap - 1, cap, min(size, cap - 1)])
+            u = 10 ** c.precision
+            f = rhu(parse_dec(c.bid_fee[1]) * (cap - 1)) if c.bid_fee and parse_dec(c.bid_fee[1]) is not None and parse_dec(c.bid_fee[1]) >= 0 else 0
+            fee = (f, quote) if f > 0 else None
+            due = rng.choice([cap - 1, total]) + (fee[0] if fee else 0)
         nid = rng.choice(list(self.asks)) if self.asks and rng.random() < 0.06 else new_uuid(rng)
         return self.maybe_reuse_id(
             dict(kind="create_bid", sender=rng.choice(self.accounts), id=nid, base=c.base,
